@@ -180,6 +180,7 @@ def translate():
     out["mask_from_previous_identifier"] = bool(re.search(r"let\s+mut\s+preceding_identifier_buffer\s*=\s*previous_identifier\s*\.\s*as_vec\(\)\s*;", b)
                                                 and re.search(r"let\s+previous_identifier\s*=\s*self\s*\.\s*location\s*\.\s*identifier\s*;", b))
     out.update(translate_padding())
+    out.update(translate_iter())
     return out
 
 
@@ -194,6 +195,28 @@ def translate_padding():
             "padding_byte_index": parse_expr(m.group(2), {"len"}),
             "padding_bit": parse_expr(m.group(3), {"len"}),
             "padding_reject": parse_expr(m.group(4), {"byte", "bit"}, u8_shifts=True)}
+
+
+def translate_iter():
+    """archetype/identifier/iter.rs: `Iter::next` — when it ends, which bit it returns, when it moves to the next
+    byte and how it shifts the current one; `Iter::new` — what the first current byte is."""
+    src = strip(read("src/archetype/identifier/iter.rs"))
+    b = body_of(src, "next")
+    n = re.sub(r"\s+", " ", b).strip()
+    m = re.match(r"if (.*?) \{ None \} else \{ let result = (.*?); self\.position \+= 1; if (.*?) \{ "
+                 r"self\.pointer = unsafe \{ self\.pointer\.add\(1\) \}; self\.current = unsafe \{ \*self\.pointer \}; \} "
+                 r"else \{ self\.current >>= (\d+); \} Some\(result\) \}$", n)
+    if not m:
+        raise ParseFailure("identifier/iter.rs: Iter::next has an unexpected shape: %r" % n[:200])
+
+    def ex(e, ids):
+        return parse_expr(e.replace("self.position", "position").replace("self.current", "current").replace("R::LEN", "len"), ids)
+    out = {"iter_end": ex(m.group(1), {"position", "len"}), "iter_result": ex(m.group(2), {"current"}),
+           "iter_reload": ex(m.group(3), {"position", "len"}), "iter_shift": "(N.shiftr current %s)" % m.group(4)}
+    nb = re.sub(r"\s+", " ", body_of(src, "new"))
+    out["iter_new_reads_first_byte"] = bool(re.search(
+        r"current: if R::LEN > 0 \{ unsafe \{ \*pointer \} \} else \{ 0 \}, position: 0,", nb))
+    return out
 
 
 def emit(t):
@@ -213,7 +236,13 @@ def emit(t):
          "Definition padding_reject (byte bit : N) : bool := %s." % t["padding_reject"],
          "Definition fact_mask_feeds_size_of_components : bool := %s." % b(t["mask_feeds_size_of_components"]),
          "Definition fact_drop_reads_at_offset : bool := %s." % b(t["drop_reads_at_offset"]),
-         "Definition fact_mask_from_previous_identifier : bool := %s." % b(t["mask_from_previous_identifier"])]
+         "Definition fact_mask_from_previous_identifier : bool := %s." % b(t["mask_from_previous_identifier"]),
+         "(* archetype/identifier/iter.rs: the bit iterator every column walk is driven by *)",
+         "Definition iter_end (position len : N) : bool := %s." % t["iter_end"],
+         "Definition iter_result (current : N) : bool := %s." % t["iter_result"],
+         "Definition iter_reload (position len : N) : bool := %s." % t["iter_reload"],
+         "Definition iter_shift (current : N) : N := %s." % t["iter_shift"],
+         "Definition fact_iter_new_reads_first_byte : bool := %s." % b(t["iter_new_reads_first_byte"])]
     return "\n".join(o) + "\n"
 
 
